@@ -674,12 +674,6 @@ Proof.
   - intros H. exists p. split; [assumption|]. unfold pair_eqb. lia.
 Qed.
 
-Lemma pnodup_true l : NoDup l -> pnodup l = true.
-Proof.
-  induction 1 as [|p l Hp Hnd IH]; cbn [pnodup]; [reflexivity|]. rewrite IH, andb_true_r.
-  destruct (pmem p l) eqn:E; [apply pmem_In in E; contradiction | reflexivity].
-Qed.
-
 Lemma connected_iff n b s r : BInv n b -> connected b s r = true <-> 0 <= r < n /\ In s (srcs b r).
 Proof.
   intros [Hn Hl Hnd Hr Hc]. unfold connected. rewrite andb_true_iff, zmem_In, Hn, in_range_iff. tauto.
@@ -688,7 +682,6 @@ Qed.
 Lemma report_ok_model n b R : BInv n b -> Rep b R -> report_ok n R (report_pairs b) = true.
 Proof.
   intros Hb HR. pose proof Hb as [Hn Hl Hnd Hr Hc]. unfold report_ok. rewrite !andb_true_iff. repeat split.
-  - apply pnodup_true. eapply NoDup_report; eassumption.
   - apply forallb_forall. intros [s r] H. apply In_report in H as [H1 H2]. rewrite Hl in H1.
     destruct (Hr r s H1 H2). cbn [fst snd]. unfold chan_ok. lia.
   - apply forallb_forall. intros s _. apply forallb_forall. intros r _.
@@ -1365,18 +1358,11 @@ Proof.
 Qed.
 
 (* ---- what the checker's acceptance means, independent of any model ---- *)
-Lemma pnodup_NoDup l : pnodup l = true -> NoDup l.
-Proof.
-  induction l as [|p t IH]; intros H; [constructor|]. cbn [pnodup] in H. apply andb_true_iff in H as [H1 H2].
-  constructor; [|now apply IH]. intros Hin. apply pmem_In in Hin. rewrite Hin in H1. discriminate.
-Qed.
-
 Lemma report_ok_sound n R rep : report_ok n R rep = true ->
-  NoDup rep /\
   (forall s r, In (s, r) rep -> 0 <= s < n /\ 0 <= r < n) /\
   (forall s r, 0 <= s < n -> 0 <= r < n -> (In (s, r) rep <-> R s r = true)).
 Proof.
-  unfold report_ok. rewrite !andb_true_iff. intros [[H1 H2] H3]. split; [now apply pnodup_NoDup|]. split.
+  unfold report_ok. rewrite !andb_true_iff. intros [H2 H3]. split.
   - intros s r Hin. rewrite forallb_forall in H2. specialize (H2 _ Hin). cbn [fst snd] in H2. unfold chan_ok in H2. lia.
   - intros s r Hs Hr. rewrite forallb_forall in H3. specialize (H3 s ltac:(apply In_zrange; lia)).
     rewrite forallb_forall in H3. specialize (H3 r ltac:(apply In_zrange; lia)).
@@ -1386,7 +1372,6 @@ Qed.
 Lemma check_edit_sound cf st e rep cnt st' :
   check_step cf st (OEdit e) (ORep rep cnt) = Some st' ->
   c_R st' = rel_edit (cf_kind cf) (cf_n cf) (c_R st) e /\
-  NoDup rep /\
   (forall s r, In (s, r) rep -> 0 <= s < cf_n cf /\ 0 <= r < cf_n cf) /\
   (forall s r, 0 <= s < cf_n cf -> 0 <= r < cf_n cf -> (In (s, r) rep <-> c_R st' s r = true)).
 Proof.
